@@ -308,12 +308,18 @@ def main(argv=None):
     ap.add_argument("--seed", type=int, default=int(os.environ.get("VERIF_SEED", "0")))
     ap.add_argument("--replay", default=None)
     a = ap.parse_args(argv)
+    if a.replay:
+        # a replay re-judges a handful of recorded cases: it must not replace the evidence of the registered runs
+        global EVIDENCE_DIR, REPLAY_DIR
+        EVIDENCE_DIR = os.path.join(tempfile.gettempdir(), f"verif_scratch_evidence_{os.getpid()}")
+        REPLAY_DIR = os.path.join(EVIDENCE_DIR, "replays")
     mod = importlib.import_module(f"harness.props.{a.pid.lower()}")
     ctx = Ctx(a.pid, a.tier, a.seed)
     try:
         if a.replay:
             with open(a.replay) as f:
                 rp = json.load(f)
+            setup_import_path()      # replays execute in this process: import xgcm from the tree under test
             mod.replay(ctx, rp)
         else:
             mod.run(ctx)
